@@ -3879,8 +3879,10 @@ check_token_size(coap_session_t *session, const coap_pdu_t *pdu) {
         if (coap_send_internal(session, response) == COAP_INVALID_MID)
           coap_log_warn("coap_dispatch: error sending response\n");
       }
-    } else {
+    } else if (pdu->type != COAP_MESSAGE_NON ||
+               !coap_is_mcast(&session->addr_info.local)) {
       /* Indicate no extended token support */
+      /* (RFC 7252 8.1: no RST in reply to a NON received via multicast) */
       coap_send_rst_lkd(session, pdu);
     }
     return 0;
@@ -3941,7 +3943,9 @@ coap_dispatch(coap_context_t *context, coap_session_t *session,
   if (!COAP_PDU_IS_SIGNALING(pdu) &&
       coap_option_check_critical(session, pdu, &opt_filter) == 0) {
     if (pdu->type == COAP_MESSAGE_NON) {
-      coap_send_rst_lkd(session, pdu);
+      /* RFC 7252 8.1: no RST in reply to a NON received via multicast */
+      if (!coap_is_mcast(&session->addr_info.local))
+        coap_send_rst_lkd(session, pdu);
       goto cleanup;
     } else if (pdu->type == COAP_MESSAGE_CON) {
       if (COAP_PDU_IS_REQUEST(pdu)) {
@@ -4211,7 +4215,9 @@ coap_dispatch(coap_context_t *context, coap_session_t *session,
     /* check for unknown critical options */
     if (coap_option_check_critical(session, pdu, &opt_filter) == 0) {
       packet_is_bad = 1;
-      coap_send_rst_lkd(session, pdu);
+      /* RFC 7252 8.1: no RST in reply to a NON received via multicast */
+      if (!coap_is_mcast(&session->addr_info.local))
+        coap_send_rst_lkd(session, pdu);
       goto cleanup;
     }
     if (!check_token_size(session, pdu)) {
